@@ -22,7 +22,8 @@ ASSUMPTIONS = [
 def s_case(draw):
     n = draw(st.one_of(st.sampled_from(LENGTHS + [2048, 2047]), st.integers(1, 600)))
     x = draw(s_signal(n=n, cls="O", dts=("c",), fams=["gauss", "unif", "spike", "lead0", "smallint"]))
-    return {"x": x, "gv": draw(s_gv(sps_max=64)), "phi2": draw(st.one_of(st.floats(0, 200), st.floats(0, 3), st.just(0.0))), "sgn2": draw(st.sampled_from([1, -1])),
+    x["scale"] = draw(st.sampled_from([1.0, 1.0, 1e-6, 1e-12, 1e4]))
+    return {"x": x, "gv": draw(s_gv(sps_max=64)), "gv2": draw(s_gv(sps_max=64)), "phi2": draw(st.one_of(st.floats(0, 200), st.floats(0, 3), st.just(0.0))), "sgn2": draw(st.sampled_from([1, -1])),
             "phi2b": draw(st.floats(0, 100)), "sgn2b": draw(st.sampled_from([1, -1])),
             "phi3": draw(st.one_of(st.just(0.0), st.floats(0, 50))), "sgn3": draw(st.sampled_from([1, -1])),
             "alpha": draw(st.one_of(st.just(0.0), st.floats(0, 0.5))), "L": draw(st.floats(0.01, 100)), "split": draw(st.floats(0.05, 0.95)),
@@ -30,7 +31,7 @@ def s_case(draw):
 
 
 def tol(ref):
-    return 1e-9 * max(1.0, float(np.max(np.abs(ref))) if np.size(ref) else 1.0)
+    return 1e-9 * (float(np.max(np.abs(ref))) if np.size(ref) else 0.0) + 1e-300      # relative to the data, no absolute floor
 
 
 def near(a, b, tag, what, f=1.0):
@@ -43,6 +44,11 @@ def e_case(c):
     reset()
     sps, R, fs = apply_gv(c["gv"])
     x, m = build(c["x"])
+    sc = c["x"].get("scale", 1.0)
+    if sc != 1.0:
+        from ..sigs import Model
+        m = Model(m.cls, m.npol, m.s * sc, None if m.n is None else m.n * sc)
+        x = type(x)(m.s.copy(), None if m.n is None else m.n.copy(), n_pol=m.npol)
     N = m.N
     g = Guard()
     g.add_signal("x", x)
@@ -90,6 +96,19 @@ def e_case(c):
     want = e_in * 10 ** (-alpha * L / 10)
     rtol_loss = 3e-5 * (alpha * L / 4.343) + 1e-10
     check(np.allclose(e2, want, rtol=rtol_loss, atol=1e-300), "fiber-loss-law", f"alpha*L={alpha * L:.3f} dB: {e2} vs {want}")
+    # the same D / the same fibre under another sampling rate configured later in the same process (the filter follows gv.fs)
+    sps2, R2, fs2 = apply_gv(c["gv2"])
+    w2 = 2 * np.pi * fftfreq(N) * fs2
+    # (the same D means a band-edge phase (fs2/fs)^2 times larger: the comparison tolerance follows the phase, whose
+    #  sin/cos argument reduction costs ~1e-16 per radian; beyond 1e6 rad the clause is skipped)
+    ph2 = (c["phi2"] + c["phi3"] * fs2 / fs) * (fs2 / fs) ** 2
+    if ph2 <= 1e6:
+        tf2 = max(1.0, ph2 / 100)
+        yb = lib(D.DM, x, Darg)
+        near(yb.signal, ifft(fft(m.s, axis=-1) * np.exp(-1j * w2 ** 2 * D2 * 1e-24 / 2), axis=-1), "dm-uses-stale-sampling-rate", f"DM(D) after gv: fs {fs:.4g} -> {fs2:.4g}", tf2)
+        fb = lib(D.FIBER, x, L, alpha, b2, b3, 0.0)
+        Hf2 = np.exp(-alpha * L / (2 * 4.343) - 1j * b2 * L * (w2 * 1e-12) ** 2 / 2 - 1j * b3 * L * (w2 * 1e-12) ** 3 / 6)
+        near(fb.signal, ifft(fft(m.s, axis=-1) * Hf2, axis=-1), "fiber-uses-stale-sampling-rate", f"FIBER after gv: fs {fs:.4g} -> {fs2:.4g}", 2 * tf2)
     raises(TypeError, D.DM, electrical_signal(np.ones(4)), 1.0, tag="dm-non-optical-accepted")
     raises(TypeError, D.FIBER, electrical_signal(np.ones(4)), 1.0, tag="fiber-non-optical-accepted")
     raises(TypeError, D.DM, np.ones(4, dtype=complex), 1.0, tag="dm-non-optical-accepted")
